@@ -260,6 +260,89 @@ func runC03(tier string) int {
 			completed = n
 		}
 	}
+	// the switch as the statement of a poryswitch case (colon and brace form, selected directly and through '_'), with a
+	// var operand and with an AutoVar command operand (whose command must run before the switch), for every case list
+	// of length <= 2
+	pswN := 2
+	if tier == "thorough" {
+		pswN = 3
+	}
+	for n := 1; n <= pswN && !r.Expired(); n++ {
+		pow := uint64(1)
+		for i := 0; i < n; i++ {
+			pow *= c03Bodies
+		}
+		total := uint64(n+1) * pow * 4 * 3
+		r.Parallel(total, func(w int, idx uint64) {
+			form := int(idx % 4)
+			x := idx / 4
+			operand := int(x % 3)
+			x /= 3
+			defPos := int(x % uint64(n+1))
+			x /= uint64(n + 1)
+			bodies := make([]int, n)
+			for i := range bodies {
+				bodies[i] = int(x % c03Bodies)
+				x /= c03Bodies
+			}
+			sc := c03Program(n, defPos, bodies, 1)
+			for i := range sc.Body {
+				if sc.Body[i].Kind == model.SSwitch && operand > 0 {
+					lf := autoLeaf([]int{0, 0, 2}[operand], 0, 1)
+					lf.Src = lf.AutoSrc
+					sc.Body[i].Operand = lf
+				}
+			}
+			plain := model.Print([]*model.Script{sc})
+			lines := strings.Split(plain, "\n")
+			from, to := -1, -1
+			for i, l := range lines {
+				if from < 0 && strings.HasPrefix(l, "\tswitch (") {
+					from = i
+				} else if from >= 0 && l == "\t}" {
+					to = i
+					break
+				}
+			}
+			if from < 0 || to < 0 {
+				return
+			}
+			stmt := append([]string{}, lines[from:to+1]...)
+			var wrapped []string
+			switch form {
+			case 0:
+				stmt[0] = "\t\tSEL: " + strings.TrimLeft(stmt[0], "\t")
+				wrapped = append(append([]string{"\tporyswitch(PV) {"}, stmt...), "\t\t_: other", "\t}")
+			case 1:
+				wrapped = append(append([]string{"\tporyswitch(PV) {", "\t\tSEL {"}, stmt...), "\t\t}", "\t\t_ { other }", "\t}")
+			case 2:
+				stmt[0] = "\t\t_: " + strings.TrimLeft(stmt[0], "\t")
+				wrapped = append(append([]string{"\tporyswitch(PV) {", "\t\tNOPE: other"}, stmt...), "\t}")
+			default:
+				wrapped = append(append([]string{"\tporyswitch(PV) {", "\t\tNOPE { other }", "\t\t_ {"}, stmt...), "\t\t}", "\t}")
+			}
+			src := c03Consts + strings.Join(append(append(append([]string{}, lines[:from]...), wrapped...), lines[to+1:]...), "\n")
+			scripts := []*model.Script{sc}
+			o := &comp.Opts{Cmd: autoCfg, Switches: map[string]string{"PV": "SEL"}}
+			r.Add("programs", 1)
+			r.Add("switch_in_poryswitch_case_programs", 1)
+			for _, opt := range []bool{true, false} {
+				ok, rej, st, v, out := checkScripts(scripts, src, opt, machine.Lazy, o)
+				if !ok {
+					r.Report(harness.Violation{Sig: "C03:rejected-in-poryswitch:" + firstWords(rej, 6), Summary: fmt.Sprintf("switch inside a poryswitch case rejected: %s\n  source: %q", rej, src), Replay: map[string]interface{}{"source": src, "error": rej}})
+					continue
+				}
+				r.Add("evaluations", 1)
+				r.Add("nontrivial", 1)
+				addStats(r, st)
+				if v != nil {
+					r.Report(harness.Violation{Sig: c03Sig(v, n, defPos, bodies) + fmt.Sprintf("+poryswitch-form%d", form), Summary: fmt.Sprintf("entries=%d default@%d bodies=%v inside poryswitch form %d, operand kind %d, optimize=%v: %s\n  source: %q", n, defPos, bodies, form, operand, opt, v, src),
+						Replay:  c03Case{N: n, DefPos: defPos, Bodies: bodies, Ctx: 1, Source: src, Optimize: opt, Expected: v.A.String(), Actual: v.B.String(), Env: v.Sigma, Trace: v.Trace, Output: out},
+						Recheck: func() bool { _, _, _, v2, _ := checkScripts(scripts, src, opt, machine.Lazy, o); return v2 != nil }})
+				}
+			}
+		})
+	}
 	// the size dimension: switches with K cases (all with bodies / every third without / with a default) for every K
 	// up to the scale bound, and switches nested K deep
 	var scaled []engineProgram
@@ -300,7 +383,7 @@ func runC03(tier string) int {
 	r.Assume("reference switch rule: a body-less entry shares the next entry that has a body; trailing body-less entries go to the statement after the switch; default runs iff no case value matches; bodies never fall through; break leaves the switch",
 		"var domain = every case value, its neighbours and 0 (always contains a non-matching value)")
 	return r.Finish(r.Get("evaluations"), r.Get("nontrivial"),
-		"every case list of length n (default at any position or absent) x every assignment of bodies from a 10-body alphabet (empty, cmd, cmd+break, break+dead tail, if-break, while-with-break, nested switch, labelled body with goto into it, cmd+end, if-continue in loops; reduced alphabet at n>=5) x 8 contexts (alone, first/middle/last, in while, in do-while, in another switch, in infinite while, with case values written as constant expressions) x optimize on/off, each also written on a single source line and compiled with line markers (explored again whenever the marker-stripped output differs); plus switches with K cases and switches nested K deep for every K up to the scale bounds; non-trivial = >= 2 entries and >= 3 distinct observable events")
+		"every case list of length n (default at any position or absent) x every assignment of bodies from a 10-body alphabet (empty, cmd, cmd+break, break+dead tail, if-break, while-with-break, nested switch, labelled body with goto into it, cmd+end, if-continue in loops; reduced alphabet at n>=5) x 8 contexts (alone, first/middle/last, in while, in do-while, in another switch, in infinite while, with case values written as constant expressions) x optimize on/off, each also written on a single source line and compiled with line markers (explored again whenever the marker-stripped output differs); plus every case list of length <= 2 (thorough 3) as the statement of a poryswitch case (4 forms) with a var and with AutoVar command operands; plus switches with K cases and switches nested K deep for every K up to the scale bounds; non-trivial = >= 2 entries and >= 3 distinct observable events")
 }
 
 // oneLine rewrites a generated source so that every statement sits on one line
